@@ -109,6 +109,10 @@ func (x *exec) ev(e Expr, env *Env, hint types.Type) *Val {
 		if v, ok := env.vars[n.Name]; ok {
 			return v
 		}
+		if n.Name == "$sigma" {
+			// the abstract client state that stored change closures transform (C20)
+			return x.mkVal(x.sigmaGet(env.st), types.Typ[types.Int])
+		}
 		if env.cell != nil {
 			if v := env.cell(n.Name); v != nil {
 				return v
@@ -610,6 +614,15 @@ func (x *exec) evCall(n *ECall, env *Env, hint types.Type) *Val {
 			// csprng(b): the buffer / key object b was filled by the operating system's secure random source
 			v := x.ev(n.Args[0], env, nil)
 			return x.mkVal(Sel(x.h.get(env.st, csprngArr, "(Array Int Bool)"), x.refOf(v)), types.Typ[types.Bool])
+		case "app":
+			// app(f, s): the client state after calling the stored closure f in client state s
+			if len(n.Args) != 2 {
+				fail("spec: app(f, s)")
+			}
+			fv := x.ev(n.Args[0], env, nil)
+			sv := x.ev(n.Args[1], env, types.Typ[types.Int])
+			x.c.Fun("sigma!app", []string{"Int", x.sigmaSort()}, x.sigmaSort())
+			return x.mkVal(App("sigma!app", x.term(fv), x.term(sv)), types.Typ[types.Int])
 		case "first":
 			// first(v): the first value assigned to the local v (only meaningful as the subject of a case split,
 			// where any term is sound: the cases are exhaustive whatever the term denotes)
